@@ -42,7 +42,7 @@ def coq_make(targets, timeout=3000):
     rc, out = sh(["make", "-j%d" % NPROC] + list(targets), cwd=COQ, timeout=timeout)
     return rc == 0, out
 
-FORBIDDEN = re.compile(r"\b(Admitted|admit|Axiom|Axioms|Parameter|Parameters|Conjecture|Conjectures|Hypothesis|Hypotheses|Variable|Variables|Unset\s+Guard|bypass_check|type-in-type|impredicative-set|Admit\s+Obligations|native_compute)\b")
+FORBIDDEN = re.compile(r"\b(Admitted|admit|Axiom|Axioms|Parameter|Parameters|Conjecture|Conjectures|Hypothesis|Hypotheses|Variable|Variables|Context|Unset\s+Guard|bypass_check|type-in-type|impredicative-set|Admit\s+Obligations|native_compute)\b")
 def strip_coq_comments(s):
     out, depth, i, n = [], 0, 0, len(s)
     while i < n:
@@ -68,7 +68,7 @@ def forbidden_scan():
             if re.match(r"\s*End\b", line) and depth: depth -= 1
             for m in FORBIDDEN.finditer(line):
                 w = m.group(1)
-                if w.split()[0] in ("Hypothesis", "Hypotheses", "Variable", "Variables") and depth > 0:
+                if w.split()[0] in ("Hypothesis", "Hypotheses", "Variable", "Variables", "Context") and depth > 0:
                     continue
                 bad.append("%s:%d: %s" % (os.path.relpath(f, VERIF), ln, w))
     return bad
@@ -227,7 +227,7 @@ def run_lines(binp, lines, extra_env=None, label="", timeout=1800):
         if os.path.exists(sf):
             for l in open(sf):
                 a = l.split()
-                if len(a) == 2: stats.append((int(a[0]), int(a[1])))
+                if len(a) == 3: stats.append((c * size + int(a[0]) - 1, int(a[1]), int(a[2])))
     shutil.rmtree(tmp, ignore_errors=True)
     return outs, stats
 
